@@ -162,7 +162,7 @@ theorem rawSigHash_ext {h h' : Heap} (hinv : InvX h) {a : Addr} {sub : Bytes} {i
                   have := unfoldA_addr ht'
                   cases t' with | node a' m' sc' k' =>
                     simp only [ATree.addr] at this; subst this; simp [addrs]
-                have hcfresh : h.length ≤ c := hfresh c _ hcaddr hroot rfl (by show o.sc.kind ≠ 10; rw [hko]; decide)
+                have hcfresh : h.length ≤ c := hfresh c _ hcaddr hroot rfl
                 have c0 : SCtx h h1 h1 := ⟨⟨e, he⟩, hi1, fun x o1 ho1 => ⟨o1, ho1, rfl, rfl⟩⟩
                 have res := surgery_ext (d := dd) c0 (by
                   intro oc vinL voutL w lo hpp hlo
@@ -196,8 +196,8 @@ theorem rawSigHash_ext {h h' : Heap} (hinv : InvX h) {a : Addr} {sub : Bytes} {i
                       simp only [addrs, List.mem_cons]; right; exact mem_addrsL.mpr ⟨tx, htx1, hax⟩⟩
                   refine ⟨hcfresh, ⟨_, hroot, rfl, hko⟩, k1, k2, ?_, hik, by rw [he]; simp⟩
                   intro x hx
-                  obtain ⟨ox, hox, hkx⟩ := kindAt_some (hik x hx)
-                  exact ⟨ox, hox, fun hmx => hfresh x ox (hmem x hx) hox hmx (by rw [hkx]; decide)⟩) hsu
+                  obtain ⟨ox, hox, _⟩ := kindAt_some (hik x hx)
+                  exact ⟨ox, hox, fun hmx => hfresh x ox (hmem x hx) hox hmx⟩) hsu
                 exact ⟨res.inv, res.pre⟩
     | _ => simp [habs] at hr
 
@@ -266,6 +266,9 @@ theorem trx_step {s : St} (hinv : InvX s.heap) (op : OpX) : TrX s.heap (HeapX.st
   | newTxFrom vi vo lock ver w => exact invx_newOps hinv _ (fun b hb => by cases hb)
   | newTxDefault v => exact invx_newOps hinv _ (fun b hb => by cases hb)
   | newTxInFrom pr sc q => exact invx_newOps hinv _ (fun b hb => by cases hb)
+  | newCTxInFrom pr sc q => exact invx_newOps hinv _ (fun b hb => by cases hb)
+  | witListEdit t i st => exact invx_newOps hinv _ (fun b hb => by cases hb)
+  | stackEdit t j b => exact invx_newOps hinv _ (fun b hb => by cases hb)
 
 theorem invx_step {s : St} (hinv : InvX s.heap) (op : OpX) : InvX (HeapX.stepX s op).1.heap :=
   (trx_step hinv op).inv
@@ -277,8 +280,8 @@ theorem invx_init : InvX Model.Heap.init.heap := by
   refine ⟨?_, ?_, hi.cacheOK, ?_, hi.defaults⟩
   · intro a o ho hm c hc
     obtain ⟨oc, hoc, hmc⟩ := hi.immClosed a o ho hm c hc
-    exact ⟨oc, hoc, Or.inl hmc⟩
-  · intro a o ho hai _
+    exact ⟨oc, hoc, hmc⟩
+  · intro a o ho hai
     exact hi.kindOK a o ho hai
   · intro a o ho
     match a, ho with
